@@ -19,6 +19,7 @@ import (
 	"net/http/httptest"
 	"strings"
 	"sync"
+	"sync/atomic"
 	"testing"
 
 	"github.com/ethereum/go-ethereum"
@@ -42,7 +43,9 @@ type c10In struct {
 	State   string    `json:"state,omitempty"` // pending | mined | notfound | error | nil | nilpending
 	Sug     string    `json:"sug,omitempty"`   // flat form: the node's suggested tip: decimal or "err"
 	Sign    bool      `json:"sign,omitempty"`
-	Sub     bool      `json:"sub,omitempty"`
+	Sub     bool      `json:"sub,omitempty"`     // SendTransaction finally succeeds ...
+	SubFail int       `json:"subFail,omitempty"` // ... after this many failing attempts (a client that does not retry sees only the first)
+	ET      string    `json:"et,omitempty"`      // what a failing SendTransaction / SignTx / tip query says (c10ErrorKinds)
 	Steps   []c10Step `json:"steps,omitempty"`
 }
 
@@ -65,8 +68,9 @@ type c10Tx struct {
 }
 
 type c10Obs struct {
-	At         int    `json:"at"`  // index of the cancel step inside the session
-	Sug        string `json:"sug"` // what the node answers to a tip query at the moment of this CancelTx
+	Attempts   int    `json:"attempts"` // replacements that reached SendTransaction in this CancelTx
+	At         int    `json:"at"`       // index of the cancel step inside the session
+	Sug        string `json:"sug"`      // what the node answers to a tip query at the moment of this CancelTx
 	Sub        *c10Tx `json:"sub"`
 	Acc        bool   `json:"acc"`
 	OK         bool   `json:"ok"`
@@ -82,6 +86,34 @@ type c10Obs struct {
 
 var errC10Injected = errors.New("c10: injected failure")
 
+// same text as go-ethereum's txpool.ErrReplaceUnderpriced / core.ErrNonceTooLow (those packages do not build offline)
+var errC10Underpriced = errors.New("replacement transaction underpriced")
+
+var c10ErrorKinds = []string{"", "underpriced", "wrapped-underpriced", "nonce-too-low", "already-known", "funds", "canceled",
+	"deadline", "eof"}
+
+func c10Failure(kind string) error {
+	switch kind {
+	case "underpriced":
+		return errors.New("replacement transaction underpriced")
+	case "wrapped-underpriced":
+		return fmt.Errorf("c10: node refused the transaction: %w", errC10Underpriced)
+	case "nonce-too-low":
+		return errors.New("nonce too low")
+	case "already-known":
+		return errors.New("already known")
+	case "funds":
+		return errors.New("insufficient funds for gas * price + value")
+	case "canceled":
+		return context.Canceled
+	case "deadline":
+		return context.DeadlineExceeded
+	case "eof":
+		return io.EOF
+	}
+	return errC10Injected
+}
+
 const c10SuggestedPrice = 777
 
 type c10Node struct {
@@ -93,7 +125,8 @@ type c10Node struct {
 	sends      uint64             // plain transactions accepted so far (pending nonce of the account)
 	lastSent   *types.Transaction // the last plain transaction the node received from this client
 	orig       *types.Transaction
-	sub        *c10Tx
+	sub        *c10Tx // the replacement judged: the accepted one, else the first submitted
+	attempts   int
 	acc        bool
 	priceAsked bool
 	problems   []string
@@ -126,7 +159,7 @@ func (n *c10Node) SuggestGasPrice(ctx context.Context) (*big.Int, error) {
 }
 func (n *c10Node) tipLocked() (*big.Int, error) {
 	if n.sug == "err" {
-		return nil, errC10Injected
+		return nil, c10Failure(n.in.ET)
 	}
 	v, ok := new(big.Int).SetString(n.sug, 10)
 	if !ok {
@@ -154,9 +187,7 @@ func (n *c10Node) submitLocked(tx *types.Transaction) error {
 		n.lastSent = tx
 		return nil
 	}
-	if n.sub != nil {
-		n.problems = append(n.problems, "two transactions submitted by one CancelTx")
-	}
+	n.attempts++
 	raw, err := tx.MarshalBinary()
 	if err != nil {
 		n.problems = append(n.problems, "cannot serialise replacement: "+err.Error())
@@ -171,12 +202,19 @@ func (n *c10Node) submitLocked(tx *types.Transaction) error {
 	if dec.To() != nil {
 		to = common.Bytes2Hex(dec.To().Bytes())
 	}
-	n.sub = &c10Tx{Type: dec.Type(), Nonce: dec.Nonce(), Chain: dec.ChainId().String(), To: to,
+	got := &c10Tx{Type: dec.Type(), Nonce: dec.Nonce(), Chain: dec.ChainId().String(), To: to,
 		Value: dec.Value().String(), Data: common.Bytes2Hex(dec.Data()), Gas: dec.Gas(),
 		Tip: dec.GasTipCap().String(), Fee: dec.GasFeeCap().String()}
-	if !n.in.Sub {
-		return errC10Injected
+	if n.sub == nil {
+		n.sub = got
 	}
+	if n.acc {
+		n.problems = append(n.problems, "a second replacement after the node accepted one")
+	}
+	if n.attempts <= n.in.SubFail || !n.in.Sub {
+		return c10Failure(n.in.ET)
+	}
+	n.sub = got
 	n.acc = true
 	return nil
 }
@@ -322,9 +360,10 @@ func (k *c10Signer) SignHash(data []byte) ([]byte, error) { return crypto.Sign(d
 func (k *c10Signer) SignTx(tx *types.Transaction, chainID *big.Int) (*types.Transaction, error) {
 	k.node.mu.Lock()
 	ok := k.node.in.Sign || k.node.mode == "send"
+	failure := c10Failure(k.node.in.ET)
 	k.node.mu.Unlock()
 	if !ok {
-		return nil, errC10Injected
+		return nil, failure
 	}
 	return types.SignTx(tx, types.NewLondonSigner(chainID), k.key)
 }
@@ -340,6 +379,13 @@ func c10Big(s string) *big.Int {
 	}
 	return v
 }
+
+// one HTTP server for the whole run; requests go to the node of the history under way
+var (
+	c10Server     *httptest.Server
+	c10ServerOnce sync.Once
+	c10Current    atomic.Pointer[c10Node]
+)
 
 // c10Cancel is one CancelTx of a session: the effective flat input (Sug = the node's answer at that
 // moment) and what was observed.
@@ -366,9 +412,13 @@ func c10Run(t *testing.T, in c10In) ([]c10Cancel, []string) {
 	ks := &c10Signer{key: key, node: node}
 	var backend EVM = node
 	if wire { // assembled as pkg/node does it
-		srv := httptest.NewServer(node)
-		defer srv.Close()
-		rc, err := rpc.DialContext(context.Background(), srv.URL)
+		c10Current.Store(node)
+		c10ServerOnce.Do(func() {
+			c10Server = httptest.NewServer(http.HandlerFunc(func(w http.ResponseWriter, r *http.Request) {
+				c10Current.Load().ServeHTTP(w, r)
+			}))
+		})
+		rc, err := rpc.DialContext(context.Background(), c10Server.URL)
 		if err != nil {
 			t.Fatalf("c10: dial: %v", err)
 		}
@@ -438,7 +488,7 @@ func c10Run(t *testing.T, in c10In) ([]c10Cancel, []string) {
 			}
 			node.mu.Lock()
 			c.Sug = node.sug
-			node.in, node.orig, node.sub, node.acc, node.priceAsked, node.mode = c, orig, nil, false, false, "cancel"
+			node.in, node.orig, node.sub, node.acc, node.priceAsked, node.mode, node.attempts = c, orig, nil, false, false, "cancel", 0
 			node.mu.Unlock()
 			obs := c10Obs{At: at, Sug: c.Sug, OrigPrice: orig.GasPrice().String(), OrigFee: orig.GasFeeCap().String(),
 				OrigTip: orig.GasTipCap().String(), Owner: common.Bytes2Hex(owner.Bytes()), ChainID: node.chainID.String()}
@@ -453,7 +503,7 @@ func c10Run(t *testing.T, in c10In) ([]c10Cancel, []string) {
 				obs.NotFound = err != nil && errors.Is(err, ethereum.NotFound)
 			}()
 			node.mu.Lock()
-			obs.Sub, obs.Acc, obs.PriceAsked = node.sub, node.acc, node.priceAsked
+			obs.Sub, obs.Acc, obs.PriceAsked, obs.Attempts = node.sub, node.acc, node.priceAsked, node.attempts
 			node.mu.Unlock()
 			out = append(out, c10Cancel{in: c, obs: obs})
 		}
@@ -499,7 +549,7 @@ func c10Coq(id int, in c10In, o c10Obs) string {
 	return coqRecord("id", coqN(uint64(id)),
 		"cl", coqRecord("owner", coqBytes(common.Hex2Bytes(o.Owner)), "chain", c10Z(o.ChainID)),
 		"lk", lk, "tp", tp, "pr", coqApp("PriceOk", c10Z(fmt.Sprint(c10SuggestedPrice))),
-		"sg", coqBool(in.Sign), "sb", coqBool(in.Sub), "ob", ob)
+		"sg", coqBool(in.Sign), "sb", coqBool(in.Sub && in.SubFail == 0), "ob", ob)
 }
 
 // ---- generators ----------------------------------------------------------------------------
@@ -534,6 +584,11 @@ func c10RandAmount(r *rand.Rand) string {
 func TestVerifC10(t *testing.T) {
 	e := vfOpen(t, 100)
 	defer e.Close()
+	defer func() {
+		if c10Server != nil {
+			c10Server.Close()
+		}
+	}()
 	run := func(class string, in c10In) {
 		cancels, problems := c10Run(t, in)
 		if len(problems) > 0 {
@@ -606,6 +661,9 @@ func TestVerifC10(t *testing.T) {
 		if e.rng.Intn(8) == 0 {
 			in.Sub = false
 		}
+		if e.rng.Intn(6) == 0 {
+			in.SubFail, in.ET = 1+e.rng.Intn(3), c10ErrorKinds[e.rng.Intn(len(c10ErrorKinds))]
+		}
 		run("random", in)
 	}
 	// ---- the production assembly: New over WrapEthClient(ethclient) over JSON-RPC/HTTP -------------
@@ -634,6 +692,22 @@ func TestVerifC10(t *testing.T) {
 	for _, k := range kinds {
 		for _, f := range [][2]bool{{true, true}, {true, false}} {
 			run("wire-state-garbage", c10In{T: "wire", Kind: k, Nonce: 3, Tip: "10", Fee: "99", State: "garbage", Sug: "11", Sign: f[0], Sub: f[1]})
+		}
+	}
+	// SendTransaction of the replacement fails k times with every error text, then succeeds (or never):
+	// what the node finally ACCEPTS is judged; a cancellation that returned an error must have had nothing accepted
+	for _, tr := range []string{"", "wire"} {
+		for _, et := range c10ErrorKinds {
+			for k := 1; k <= 3; k++ {
+				for _, final := range []bool{true, false} {
+					for _, kind := range []string{"legacy", "dynamic"} {
+						run("resubmit", c10In{T: tr, Kind: kind, Nonce: 4, Tip: "1000000000", Fee: "2000000000", State: "pending",
+							Sug: "1000000000", Sign: true, Sub: final, SubFail: k, ET: et})
+					}
+				}
+			}
+			run("resubmit", c10In{T: tr, Kind: "dynamic", Nonce: 4, Tip: "7", Fee: "99", State: "pending", Sug: "err", Sign: true, Sub: true, ET: et})
+			run("resubmit", c10In{T: tr, Kind: "dynamic", Nonce: 4, Tip: "7", Fee: "99", State: "pending", Sug: "11", Sign: false, Sub: true, ET: et})
 		}
 	}
 	// the target is a transaction this client itself sent: same nonce AND same chain id as the original
